@@ -823,6 +823,10 @@ class Frame:
         if name in ("Exception", "ValueError", "TypeError", "KeyError", "AttributeError", "IndexError",
                     "NotImplementedError", "RuntimeError", "ImportError", "AssertionError"):
             return TypeRef(name)
+        import builtins as _b
+        if hasattr(_b, name):
+            # a Python builtin the engine has no model for is NOT a NameError of the program
+            raise Unsupported(f"builtin {name}")
         raise PyRaise("NameError", name)
 
     def resolve_dotted(self, dotted):
@@ -1542,7 +1546,7 @@ FOREIGN_TYPES = {"numpy.ndarray": "ndarray", "pandas.DataFrame": "DataFrame", "n
 BUILTIN_TYPES = {"int", "float", "complex", "bool", "str", "list", "tuple", "dict", "set", "object", "type"}
 BUILTINS = {"len", "range", "enumerate", "zip", "abs", "min", "max", "sum", "all", "any", "isinstance",
             "issubclass", "getattr", "hasattr", "setattr", "print", "sorted", "reversed", "round", "iter", "next",
-            "map", "filter", "id", "repr", "callable"}
+            "map", "filter", "id", "repr", "callable", "slice"}
 
 
 # ----------------------------------------------------------------------------------
@@ -1834,6 +1838,10 @@ def builtin_call(fr: Frame, name, args, kwargs):
         if isinstance(x, Arr):
             return TypeRef("ndarray")
         raise Unsupported("type() of this value")
+    if name == "slice":
+        if kwargs or not 1 <= len(args) <= 3:
+            raise Unsupported("slice() outside its model")
+        return slice(*args)
     if name == "sorted":
         x = args[0]
         if kwargs:
